@@ -36,13 +36,15 @@ type conf struct {
 	racer   bool // a further call is issued at the very instant of the close (its own outcome is not judged)
 	respMs  int  // the server answers every request this long after it arrived (0: at once)
 	graceMs int  // how = "notify-close": the close follows the notification after this long (0: 1 ms)
+	partial int  // the server writes the first `partial` bytes of one more frame (a push) before it closes, and the client reads them
+	objMax  int32 // per-object limit of calls in flight (0: default 100000)
 	idleMs  int  // the server closes this long after its last response (0: 10 ms); 1000, 2000 coincide with the client sender's 1 s poll
 }
 
 func scenario(c conf) *vm.Scenario {
 	sc := &vm.Scenario{Name: c.name, MaxSteps: 500000}
 	sc.Main = func() {
-		comm := tars.VerifNewCommunicator(tars.VerifClientOpts{AsyncInvokeTimeout: c.timeout, ReadTimeout: 500 * time.Millisecond, CheckStatusInterval: 60000})
+		comm := tars.VerifNewCommunicator(tars.VerifClientOpts{AsyncInvokeTimeout: c.timeout, ReadTimeout: 500 * time.Millisecond, CheckStatusInterval: 60000, ObjQueueMax: c.objMax})
 		ln, err := vnet.Listen("tcp", addr)
 		if err != nil {
 			panic(err)
@@ -130,6 +132,10 @@ func scenario(c conf) *vm.Scenario {
 			}
 		}
 		vm.Sleep(int64(2500 * time.Millisecond))
+		// (a racing call may be lost with the connection and still wait for its timeout here)
+		if ps := tars.VerifState(sp); !c.racer && (ps.QueueLen != 0 || ps.RespEntries != 0) {
+			vm.Log("proxy queueLen=%d pendingReplies=%d after all calls returned", ps.QueueLen, ps.RespEntries)
+		}
 		for _, tc := range tars.VerifClients(sp) {
 			st := transport.VerifClientState(tc)
 			open := false
@@ -200,6 +206,11 @@ func acceptor(c conf, ln vnet.Listener, closed chan int64) {
 							vm.Sleep(int64(c.idleMs)*1e6 - vm.Now()%1e9) // at this offset into the second (the connection was made at t=0)
 						} else {
 							vm.Sleep(int64(10 * time.Millisecond))
+						}
+						if c.partial > 0 {
+							push := (&tnet.Response{Version: 1, ID: 0, ResultDesc: "_some_push_", Status: map[string]string{}}).Encode()
+							conn.Write(push[:c.partial])
+							vm.Block("server-wait-drain", func() bool { return conn.PeerUnread() == 0 || conn.PeerClosed() })
 						}
 						switch c.how {
 						case "notify-close":
@@ -278,6 +289,9 @@ func check(c conf, r *vm.Result) string {
 		if strings.HasPrefix(o, "call pre") && !strings.Contains(o, " ok ") {
 			msgs = append(msgs, "call-before-close-failed\n"+o)
 		}
+		if strings.HasPrefix(o, "proxy queueLen=") && !strings.Contains(o, "did-not-return") {
+			msgs = append(msgs, "in-flight-accounting-left-after-calls-returned\n"+o)
+		}
 		if strings.HasPrefix(o, "client ") {
 			var isClosed, open bool
 			var id string
@@ -335,6 +349,11 @@ func main() {
 			}
 			if c.respMs > 0 {
 				cc.name = fmt.Sprintf("slow-server resp=%dms grace=%dms closeAt=%d how=%s delta=%dms after=%d par=%d bound=%d prune=%v policy=%s", c.respMs, c.graceMs, c.closeAt, c.how, c.deltaMs, c.after, c.par, bound, prune, pn)
+				cases = append(cases, e1.Case{Sc: scenario(cc), Opt: vm.Options{Bound: bound, StrictDev: true, Prune: prune, Policy: pol}, Budget: budget, MinOutcomes: 1})
+				continue
+			}
+			if c.partial > 0 || c.objMax > 0 {
+				cc.name = fmt.Sprintf("partial=%d objMax=%d closeAt=%d how=%s delta=%dms after=%d par=%d down=%d during=%d bound=%d prune=%v policy=%s", c.partial, c.objMax, c.closeAt, c.how, c.deltaMs, c.after, c.par, c.downMs, c.during, bound, prune, pn)
 				cases = append(cases, e1.Case{Sc: scenario(cc), Opt: vm.Options{Bound: bound, StrictDev: true, Prune: prune, Policy: pol}, Budget: budget, MinOutcomes: 1})
 				continue
 			}
@@ -409,6 +428,24 @@ func main() {
 		for _, d := range []int{1, 1200} {
 			add(conf{closeAt: 1, how: "restart", deltaMs: d, after: 2, par: 1, downMs: 500, during: during}, 1, false)
 		}
+	}
+	// the close comes in the middle of a frame: 1, 4, 5 or all-but-one bytes of a push have been written and read
+	for _, how := range []string{"close", "reset", "restart"} {
+		for _, pb := range []int{1, 4, 5, 20} {
+			cf := conf{closeAt: 1, how: how, deltaMs: 1, after: 2, par: 1, partial: pb}
+			if how == "restart" {
+				cf.downMs = 500
+			}
+			b := 0
+			if pb == 5 {
+				b = 1
+			}
+			add(cf, b, false)
+		}
+	}
+	// restart with more failed calls meanwhile than the per-object limit of calls in flight
+	for _, om := range []int32{1, 2} {
+		add(conf{closeAt: 1, how: "restart", deltaMs: 1, after: 2, par: 1, downMs: 500, during: int(om) + 2, objMax: om}, 1, false)
 	}
 	e1.Main(run, cases, []string{
 		"the call is issued a positive delay after the close: with maximal-progress time the client's receiver has then observed the close",
